@@ -9,6 +9,11 @@ pub assume_specification<T> [std::option::Option::<std::option::Option<T>>::flat
 pub assume_specification<'a, T: Copy> [std::option::Option::<&T>::copied] (o: Option<&'a T>) -> (r: Option<T>)
     ensures r == (match o { Some(v) => Some(*v), None => None });
 
+pub assume_specification<T, E, U, F> [std::result::Result::<T, E>::and_then] (r: std::result::Result<T, E>, f: F) -> (out: std::result::Result<U, E>)
+    where F: std::ops::FnOnce(T,) -> std::result::Result<U, E> + std::marker::Destruct,
+    requires r is Ok ==> f.requires((r->Ok_0,)),
+    ensures match r { Ok(v) => f.ensures((v,), out), Err(e) => out == Err::<U, E>(e) };
+
 // Option<&Arc<T>>::cloned(): vstd relates the clone by `cloned`; for Arc the clone denotes the same value (as vstd's own Arc::clone spec)
 pub broadcast axiom fn axiom_arc_cloned<T>(a: Arc<T>, b: Arc<T>)
     requires #[trigger] vstd::pervasive::cloned::<Arc<T>>(a, b)
@@ -42,6 +47,7 @@ pub struct stat64 {
     pub st_rdev: u64, pub st_size: i64, pub st_blksize: i64, pub st_blocks: i64,
     pub st_atime: i64, pub st_atime_nsec: i64, pub st_mtime: i64, pub st_mtime_nsec: i64, pub st_ctime: i64, pub st_ctime_nsec: i64,
 }
+pub open spec fn stat_no_ids(a: stat64) -> stat64 { stat64 { st_uid: 0, st_gid: 0, ..a } }
 #[derive(Clone, Copy)]
 pub struct statvfs64 { pub f_bsize: u64, pub f_frsize: u64, pub f_blocks: u64, pub f_bfree: u64, pub f_bavail: u64, pub f_files: u64,
     pub f_ffree: u64, pub f_favail: u64, pub f_fsid: u64, pub f_flag: u64, pub f_namemax: u64 }
